@@ -89,6 +89,15 @@ pub fn run_tamper(args: &[String]) {
                 let z = replace_with(&cur, Felt::ZERO, 0);
                 if z != cur { jobs.push(Job { subj: si, path: p.clone(), kind: "zero", value: Some(z), trace: false }); }
                 // same low bits, different high bits (digest widths 160 / 248): only meaningful for field elements of the witness / messages
+                // declared numbers: same low machine word(s), different value (a check done on a truncated conversion would not see it)
+                if cur.is_string() && (path_str(&p).starts_with("config") || path_str(&p).starts_with("public_input")) {
+                    for (k, name) in [(64u64, "hi64"), (128u64, "hi128"), (192u64, "hi192")] {
+                        if let Ok(f0) = Felt::from_hex(cur.as_str().unwrap()) {
+                            let f = f0 + Felt::TWO.pow(k);
+                            jobs.push(Job { subj: si, path: p.clone(), kind: name, value: Some(json!(format!("{:#x}", f))), trace: false });
+                        }
+                    }
+                }
                 if cur.is_string() && (path_str(&p).starts_with("witness") || path_str(&p).starts_with("unsent")) {
                     for (k, name) in [(160u64, "hi160"), (248u64, "hi248")] {
                         let f = Felt::from_hex(cur.as_str().unwrap()).unwrap() + Felt::TWO.pow(k);
@@ -190,7 +199,7 @@ pub fn run_tamper(args: &[String]) {
 // ------------------------------------------------------------------------------------------------------------
 pub struct Recipe { pub subj: usize, pub label: String, pub edits: Vec<(Path, Edit)> }
 #[derive(Clone)]
-pub enum Edit { Set(Value), Empty, DropFirst, DropLast, DupLast, Extend2, Rotate, Truncate(usize) }
+pub enum Edit { Set(Value), Empty, DropFirst, DropLast, DupLast, Extend2, Rotate, Truncate(usize), Append(Vec<Value>), DupLastN(usize) }
 
 pub fn apply(v: &mut Value, edits: &[(Path, Edit)]) {
     for (p, e) in edits {
@@ -204,6 +213,8 @@ pub fn apply(v: &mut Value, edits: &[(Path, Edit)]) {
             Edit::Extend2 => { let a = t.as_array_mut().unwrap(); if let Some(x) = a.last().cloned() { a.push(x.clone()); a.push(x); } }
             Edit::Rotate => { let a = t.as_array_mut().unwrap(); if a.len() > 1 { a.rotate_left(1); } }
             Edit::Truncate(n) => { t.as_array_mut().unwrap().truncate(*n); }
+            Edit::Append(vs) => { t.as_array_mut().unwrap().extend(vs.iter().cloned()); }
+            Edit::DupLastN(n) => { let a = t.as_array_mut().unwrap(); if let Some(x) = a.last().cloned() { for _ in 0..*n { a.push(x.clone()); } } }
         }
     }
 }
@@ -256,6 +267,45 @@ pub fn recipes(subs: &[Subject], rng: &mut Rng, numbers_everywhere: bool) -> Vec
             let lns = vec![Seg::Key("public_input".into()), Seg::Key("log_n_steps".into())];
             e2.push((lns.clone(), Edit::Set(hexv(felt_at(&lns) + df))));
             out.push(Recipe { subj: si, label: format!("redeclare:log_trace+{d}"), edits: e2 });
+        }
+        // a much larger trace declared consistently: every height, the step count, and d/4 more FRI layers of step 4 (commitments and
+        // witnesses of the new layers are copies): everything up to the OODS check accepts the declarations
+        if n_inner >= 1 {
+            for d in [8u64, 20, 40] {
+                let m = (d / 4) as usize;
+                let df = Felt::from(d);
+                let mut e: Vec<(Path, Edit)> = Vec::new();
+                for t in [vec!["traces", "original"], vec!["traces", "interaction"], vec!["composition"]] {
+                    let mut p = cfg(&t); p.push(Seg::Key("vector".into())); p.push(Seg::Key("height".into()));
+                    e.push((p.clone(), Edit::Set(hexv(felt_at(&p) + df))));
+                }
+                e.push((cfg(&["fri", "log_input_size"]), Edit::Set(hexv(felt_at(&cfg(&["fri", "log_input_size"])) + df))));
+                e.push((cfg(&["log_trace_domain_size"]), Edit::Set(hexv(felt_at(&cfg(&["log_trace_domain_size"])) + df))));
+                let lns = vec![Seg::Key("public_input".into()), Seg::Key("log_n_steps".into())];
+                e.push((lns.clone(), Edit::Set(hexv(felt_at(&lns) + df))));
+                let mut last_h = Felt::ZERO; let mut last_cfg = Value::Null;
+                for i in 0..n_inner {
+                    let mut p = cfg(&["fri", "inner_layers"]); p.push(Seg::Idx(i));
+                    last_cfg = get(&s.proof, &p).clone();
+                    p.push(Seg::Key("vector".into())); p.push(Seg::Key("height".into()));
+                    last_h = felt_at(&p) + df;
+                    e.push((p.clone(), Edit::Set(hexv(last_h))));
+                }
+                let mut new_layers = Vec::new();
+                for j in 1..=m {
+                    let mut c = last_cfg.clone();
+                    c["n_columns"] = hexv(Felt::from(16));
+                    c["vector"]["height"] = hexv(last_h - Felt::from(4 * j as u64));
+                    new_layers.push(c);
+                }
+                e.push((cfg(&["fri", "inner_layers"]), Edit::Append(new_layers)));
+                e.push((cfg(&["fri", "fri_step_sizes"]), Edit::Append((0..m).map(|_| hexv(Felt::from(4))).collect())));
+                let nl = cfg(&["fri", "n_layers"]);
+                e.push((nl.clone(), Edit::Set(hexv(felt_at(&nl) + Felt::from(m as u64)))));
+                e.push((vec![Seg::Key("unsent_commitment".into()), Seg::Key("fri".into()), Seg::Key("inner_layers".into())], Edit::DupLastN(m)));
+                e.push((vec![Seg::Key("witness".into()), Seg::Key("fri_witness".into()), Seg::Key("layers".into())], Edit::DupLastN(m)));
+                out.push(Recipe { subj: si, label: format!("redeclare:log_trace+{d},{m} more FRI layers"), edits: e });
+            }
         }
         // segment lengths at extreme values (stop_ptr = begin_addr + X), alone and with the execution segment at the top of the address range
         let nseg = s.proof["public_input"]["segments"].as_array().map(|a| a.len()).unwrap_or(0);
